@@ -3,7 +3,14 @@ open Modelgen
 let table : (Stdlib.String.t * (z list -> z list)) list = [   (* Stdlib.: the extracted code may define its own type `string` *)
   ("coll", run_coll);
   ("kernel", run_kernel);
+  ("frag", run_frag);
   ("commands", run_commands);
   ("savefs", run_savefs);
   ("dataconv", run_dataconv);
+  ("c3", run_c3);
+  ("sig", run_sig);
+  ("promote", run_promote);
+  ("iskw", run_iskw);
+  ("metaedit", run_metaedit);
+  ("ecoremm", run_ecoremm);
 ]
